@@ -19,56 +19,68 @@ func (x *Exec) keySort(kt types.Type) string {
 	case *types.Pointer, *types.Chan:
 		return SRef
 	}
-	return SInt
+	return x.keyDatatype(kt)
+}
+
+// keyDatatype declares (once) the SMT datatype packing a composite map key (struct, interface,
+// array): injective by construction, no axioms needed.
+func (x *Exec) keyDatatype(kt types.Type) string {
+	m := x.smt
+	name := sym("Key." + typeName(kt))
+	if _, ok := m.funs[name]; ok {
+		return name
+	}
+	m.funs[name] = "datatype"
+	var fields []string
+	for i, l := range leafShape(kt) {
+		fields = append(fields, fmt.Sprintf("(%s %s)", keySel(name, i), l.sort))
+	}
+	if len(fields) == 0 {
+		fields = append(fields, fmt.Sprintf("(%s Int)", keySel(name, 0)))
+	}
+	decl := fmt.Sprintf("(declare-datatypes ((%s 0)) (((%s %s))))", name, keyCtor(name), strings.Join(fields, " "))
+	m.decls = append(m.decls, decl)
+	if x.keyDecls != nil {
+		if _, seen := x.keyDecls[name]; !seen {
+			x.keyDecls[name] = decl
+			x.grew = true // array constants of this sort must be declared after it: one more pass
+		}
+	}
+	return name
+}
+
+func keyCtor(dt string) string { return sym("mk" + strings.Trim(dt, "|")) }
+func keySel(dt string, i int) string {
+	return sym(fmt.Sprintf("%s^%d", strings.Trim(dt, "|"), i))
 }
 
 func (x *Exec) keyTerm(kt types.Type, v Value) Term {
-	m := x.smt
 	switch kt.Underlying().(type) {
 	case *types.Basic, *types.Pointer, *types.Chan:
 		return flatten(v)[0]
 	}
-	// composite key (struct, interface, array): injective packing
+	dt := x.keyDatatype(kt)
 	sh := leafShape(kt)
 	ls := flatten(v)
 	if len(ls) != len(sh) {
 		x.note("map key shape mismatch")
-		return m.fresh("key", SInt)
+		return x.smt.fresh("key", dt)
 	}
-	name := "key." + typeName(kt)
-	var sorts, vars, vs []string
-	for i, l := range sh {
-		sorts = append(sorts, l.sort)
-		vars = append(vars, fmt.Sprintf("(k%d %s)", i, l.sort))
-		vs = append(vs, fmt.Sprintf("k%d", i))
-	}
-	f := m.fun(name, sorts, SInt)
-	app := App(f, vs...)
-	var conj []string
-	for i, l := range sh {
-		inv := m.fun(fmt.Sprintf("%s^%d", name, i), []string{SInt}, l.sort)
-		conj = append(conj, Eq(App(inv, app), vs[i]))
-	}
-	m.axiom("ax:"+name, fmt.Sprintf("(forall (%s) (! %s :pattern (%s)))", strings.Join(vars, " "), And(conj...), app))
-	return App(f, ls...)
+	return App(keyCtor(dt), ls...)
 }
 
 // keyValue decodes a key term back to a value of type kt.
 func (x *Exec) keyValue(kt types.Type, k Term) Value {
-	m := x.smt
 	switch kt.Underlying().(type) {
 	case *types.Basic, *types.Pointer, *types.Chan:
 		v, _ := unflatten(kt, []Term{k})
 		return v
 	}
+	dt := x.keyDatatype(kt)
 	sh := leafShape(kt)
-	name := "key." + typeName(kt)
-	// make sure the function and axiom exist
-	x.keyTerm(kt, m.zeroValue(kt))
 	ts := make([]Term, len(sh))
-	for i, l := range sh {
-		inv := m.fun(fmt.Sprintf("%s^%d", name, i), []string{SInt}, l.sort)
-		ts[i] = App(inv, k)
+	for i := range sh {
+		ts[i] = App(keySel(dt, i), k)
 	}
 	v, _ := unflatten(kt, ts)
 	return v
